@@ -79,6 +79,7 @@ class Ctx:
         self.disagreements: list[dict] = []  # model vs implementation differ
         self.violations: list[dict] = []  # property fails on the implementation (concrete input)
         self.histogram: Counter = Counter()
+        self.sig_counts: Counter = Counter()
         self.notes: list[str] = []
         self.extra: dict = {}
         self.model_available = True
@@ -121,7 +122,8 @@ class Ctx:
 
     def violation(self, sig: str, what: str, inp):
         """The property's own predicate failed on the real code for a concrete input."""
-        if len(self.violations) < 200:
+        self.sig_counts[sig] += 1
+        if self.sig_counts[sig] <= 3:  # a few examples per failure class; every class is kept
             self.violations.append({"signature": sig, "what": what, "input": inp})
 
     def sample(self, obj):
@@ -143,7 +145,8 @@ def run_parallel(ctx: "Ctx", worker, tasks: list, procs: int | None = None) -> l
     payloads = []
     for r in results:
         for v in r["violations"]:
-            if len(ctx.violations) < 400:
+            ctx.sig_counts[v["signature"]] += 1
+            if ctx.sig_counts[v["signature"]] <= 3:
                 ctx.violations.append(v)
         for name, n in r["counts"].items():
             ctx.count(name, n)
